@@ -17,6 +17,7 @@ def ref_probe(r):
 
 class C06(framework.PropertyCheck):
     pid = 'C06'
+    theorem_coverage = True
     quick_cases = 1500
     thorough_cases = 30000
     rule = ('closed programs of the core calculus (define let fn (fixed and variadic) call set if case while do quote quasiquote eval print '
